@@ -48,7 +48,7 @@ func (w *World) checkRow(r *Report, rw row) bool {
 		return false
 	}
 	site := w.fnPos(rw.fn)
-	g := w.FG(rw.fn)
+	g := w.FGI(rw.fn)
 	sites := w.callsIn(rw.fn, rw.callee)
 	if len(sites) == 0 {
 		r.Fail(rw.rule, key, what, site, "no call of "+rw.name+" in "+fname(rw.fn)+". "+rw.why)
@@ -146,8 +146,8 @@ func (w *World) returnsOnly(fn *ssa.Function, want ...string) (bool, string) {
 		return false, "function not found"
 	}
 	n := 0
-	for _, b := range fn.Blocks {
-		for _, in := range b.Instrs {
+	for _, in := range w.insOf(fn) {
+		{
 			if ret, ok := in.(*ssa.Return); ok {
 				n++
 				if len(ret.Results) != len(want) {
